@@ -2,7 +2,7 @@
 """Regenerates /verif/MANIFEST.json from the table below (keeps it schema-valid)."""
 import json, os, sys
 ROOT = os.path.dirname(os.path.dirname(os.path.abspath(__file__)))
-HOOK_COMMITS = ["e8add6c"]
+HOOK_COMMITS = ["e8add6c"]  # /repo commit adding the verif-hooks feature (src/verif.rs, Path::verif_snapshot, one call in model.rs)
 EXPL = "exploration"
 # id -> (technique, level text, level note, design ref)
 CHECKS = {
@@ -24,22 +24,22 @@ CHECKS.update({
          "Exploration: exhaustive 2-thread core over a mutex and a rwlock with try variants + random programs (nested sections, counters, cells under the locks); every return in every iteration must be a step the reference allows at that instant, outcome sets must equal the reference's.",
          "trusted: sync.rs reference machine, replay monitor, interpreter", "§5-C07"),
  "C08": ("runtime monitoring: per-iteration log replayed on the reference machine (a wait may only return when notified / token present / thread exited / the single spurious Notify return), deadlock verdict and outcome sets vs. reference, race detector as hb witness",
-         "Exploration: exhaustive 2-thread core over park/unpark, a mutex, join, Notify + random programs with condvar waiters, early/late/double notifications and notifications aimed at threads blocked elsewhere.",
+         "Exploration: exhaustive 2-thread core over park/unpark, a mutex, join, Notify + pinned condvar programs whose waiters are known to be waiting (flags set under the mutex, main spins) + random programs with condvar waiters, relaxed-flag protocols with value-dependent control flow, early/late/double notifications and notifications aimed at threads blocked elsewhere.",
          "trusted: sync.rs reference machine (FIFO condvar for completeness, any waiter for soundness), replay monitor", "§5-C08"),
  "C09": ("runtime monitoring: exactly-once / FIFO checker over unique message ids via log replay on a reference queue, leak/deadlock verdicts and outcome sets vs. reference, race detector as hb witness (including the no-over-synchronisation direction)",
          "Exploration: every program with <= 2 senders x <= 2 sends x <= 3 receives (recv/try_recv) + random programs with cells, receiver dropped or forgotten at the end.",
          "trusted: sync.rs reference machine, replay monitor; only the main thread receives; senders live to the end of the iteration", "§5-C09"),
  "C13": ("runtime monitoring across process restarts: per-iteration sequences (outcomes, execution orders, decision paths from the iteration hook) of repeated, stopped, crashed (process abort) and resumed runs compared with the uninterrupted run",
-         "Fault enumeration over crash points: every stop point k x 5 checkpoint intervals through a real checkpoint file, process aborts at the start / in the middle of an iteration resumed in a fresh process, failing iterations reloaded from their checkpoint.",
+         "Fault enumeration over crash points: every stop point k x 5 checkpoint intervals through a real checkpoint file (also with preemption bounds 1 and 2, and on blocking programs with spurious-wake branches), process aborts at the start / in the middle of an iteration resumed in a fresh process, failing iterations reloaded from their checkpoint, and a destructor-order probe (thread-locals whose destructors perform loom operations, compared across runs and fresh processes).",
          "trusted: lit.rs interpreter, iteration hook; crash during loom's own file write is not injected", "§5-C13"),
  "C14": ("runtime monitoring: online trie monitor over the decision path of every iteration (iteration hook): distinctness, prefix contiguity (depth-first), ordered alternatives, nothing left unexplored, hook calls = iterations",
-         "Exploration: classic litmus shapes + random litmus programs (schedule and load branches); every iteration of every model run is checked.",
+         "Exploration: classic litmus shapes + random litmus programs (schedule and load branches) and random blocking programs (spurious-wake branches, disabled threads); every iteration of every model run is checked.",
          "trusted: pathmon.rs, verif-hooks snapshot; termination only in bounded form (iteration cap)", "§5-C14"),
  "C15": ("runtime monitoring: preemptions counted independently of loom (from decision paths and from the client-boundary log) for bounds 0..6 and a bound >= #operations; result-set inclusions between bounds and the unbounded run",
          "Exploration: 9 model runs per program over classic + random litmus programs.",
          "trusted: pathmon.rs preemption counter, lit.rs interpreter", "§5-C15"),
  "C19": ("runtime monitoring: decision-path trie (no alternative explored at a branch taken with exploration disabled), metamorphic result-set comparisons for six control placements, exact-need probes for max_branches / max_permutations / max_duration / max_threads",
-         "Exploration: ~19 model runs per program over classic + random litmus programs plus child-process probes of max_threads.",
+         "Exploration: ~22 model runs per program over classic + random litmus programs (eight placements of the controls, incl. a region right after an explorable decision with the lower bound that every placement of the region among the other threads is still explored, and stop_exploring() as the last call of an iteration) plus child-process probes of max_threads.",
          "trusted: pathmon.rs, lit.rs interpreter; equality only demanded where the region provably holds no two-alternative decision", "§5-C19"),
 })
 CHECKS.update({
@@ -63,7 +63,7 @@ CHECKS.update({
          "Exploration: 600 000 (quick) / 24 M (thorough) random operation sequences over all twelve atomic types, boundary-biased operands, all valid orderings.",
          "trusted: std atomics; compare_exchange_weak compared with std's strong variant", "§5-C12"),
  "C16": ("runtime monitoring: complete per-iteration records (outcomes, execution orders, decision paths, thread ids, initial-state probes) of the same programs compared between a fresh process, the same process after failed models, and an OS thread surrounded by other OS threads running models",
-         "Exploration over pairs/mixes of programs with fault injection (seven kinds of failing models run in between).",
+         "Exploration over pairs/mixes of programs with fault injection (seven kinds of failing models run in between), plus pristine-replay probes: every k-th iteration of programs with SeqCst fences / exploration controls is re-run from its checkpoint (pristine state) and must reproduce the uninterrupted run.",
          "trusted: record digests, iteration hook; sanitizer lanes (TSan for the concurrent part, memcheck) are extra commands of the thorough tier", "§5-C16"),
  "C17": ("runtime monitoring: init/drop counters in std atomics checked per iteration at the iteration hook, ownership marks, instance addresses, try_with inside destructors, loom's race detector on data written inside a lazy static's init",
          "Exploration: exhaustive 2-thread core of static accesses + random programs with racing first accesses.",
@@ -72,7 +72,7 @@ CHECKS.update({
          "Exploration: enumerated await shapes in every ordering pair + random programs + never-true loops.",
          "trusted: rc11.rs, lit.rs interpreter", "§5-C18"),
  "C20": ("runtime monitoring: block_on verdict (return value / deadlock panic) vs. an explicit-state model of poll/wait/wake, poll and wake counters, unique-id wakers registered in AtomicWaker",
-         "Exploration: every waking script of <= 3 steps for both waker-publication protocols, with and without the re-check, 1-2 waking threads.",
+         "Exploration: every waking script of <= 3 steps for both waker-publication protocols, with and without the re-check, 1-2 waking threads, one flag per waker, relaxed flags, and the direct protocol (waker clones handed to threads spawned at the first poll, so only the wake orders the flag before the re-poll).",
          "trusted: fam_fut.rs reference model", "§5-C20"),
 })
 NOT_YET = {}
